@@ -121,7 +121,11 @@ class FileDumper(DumperBase):
         # Finalise
         filename = temp_file.name
         temp_file.close()
-        self.write_file_to_output(filename, resource.res.source)
+        output_path = resource.res.source
+        if self.resource_hash and self.add_filehash_to_path:
+            # the file goes where the descriptor says it is
+            output_path = resource_descriptor['path']
+        self.write_file_to_output(filename, output_path)
         os.unlink(filename)
 
     def process_resource(self, resource: ResourceWrapper):
